@@ -176,7 +176,7 @@ PROPS = {
         "design_ref": "DESIGN.md §3.19, §4 C19",
     },
     "C12": {
-        "rules": ["NAMECONF", "DELGUARD", "MODGUARD", "EXH", "TRAV@C12"],
+        "rules": ["NAMECONF", "DELGUARD", "MODGUARD", "CONDSPEC", "EXH", "TRAV@C12"],
         "thorough": [],
         "technique": "static analysis: identity-by-printed-name rule with triaged site table; dominance (must-facts with branch conditions) of literal tests over every delete/move in simplify; exhaustiveness/traversal of the two rewriters",
         "level_text": "Structural clauses: every place where simplify (or a rewrite it relies on) decides expression identity through printed names is enumerated and classified; "
@@ -188,7 +188,7 @@ PROPS = {
         "design_ref": "DESIGN.md §3.6, §3.21, §4 C12",
     },
     "C03": {
-        "rules": ["FRONTPIPE", "OBLIG", "BOUNDFORM", "TYPEDISC", "WINALIAS@bounds", "ALIASCLOSED", "EXH", "TRAV@C03"],
+        "rules": ["FRONTPIPE", "OBLIG", "BOUNDFORM", "TYPEDISC", "CONDSPEC", "WINALIAS@bounds", "ALIASCLOSED", "EXH", "TRAV@C03"],
         "thorough": [],
         "technique": "static analysis: ordered must-call pipeline at definition time, per-statement-kind obligation table for the bounds checker, formula-shape patterns (0 <= i < dim, 0 < size, 0 <= hi-lo), alias-closure of bounds effects",
         "level_text": "Structural clauses: every parsed procedure passes TypeChecker -> CheckBounds -> Check_Aliasing unconditionally, on the same object, and recorded errors raise; "
